@@ -217,18 +217,11 @@ theorem weaveS_mono : (s : PStmt) → ∀ σ cur n ρ, n ≤ (weaveS s σ cur n 
       have h1 := weaveB_mono t σ noSig n ρ
       have h2 := weaveB_mono e σ noSig (weaveB t σ noSig n ρ).nxt ρ
       omega
-  | .forS lb ub st iv body [], σ, cur, n, ρ => by
+  | .forS lb ub st iv body car, σ, cur, n, ρ => by
       simp only [weaveS]
       split
       · exact weaveB_mono body σ noSig n ρ
       · refine Nat.le_trans ?_ (forFinish_mono _ _ _ _ _ _ _ _)
-        refine Nat.le_trans ?_ (weaveB_mono body _ _ _ _)
-        exact Nat.le_trans (ensure_mono _ _ _) (Nat.le_add_right _ _)
-  | .forS lb ub st iv body (c :: cs), σ, cur, n, ρ => by
-      simp only [weaveS]
-      split
-      · exact weaveB_mono body σ noSig n ρ
-      · refine Nat.le_trans ?_ (forFinishP_mono _ _ _ _ _ _ _ _ _)
         refine Nat.le_trans ?_ (weaveB_mono body _ _ _ _)
         exact Nat.le_trans (ensure_mono _ _ _) (Nat.le_add_right _ _)
 theorem weaveB_mono : (b : PBlock) → ∀ σ cur n ρ, n ≤ (weaveB b σ cur n ρ).nxt
